@@ -76,7 +76,8 @@ def run(tier, seed):
     rep = common.Report(PROP, tier, seed)
     common.build_harness()
     r, by_sid = codec.gen_codec_scenarios(tier)
-    rds = codec.readers(tier, 0)
+    # (refills of decreasing size too: a jump over a byte-sized block that spans several refills must count each refill for what it holds)
+    rds = codec.readers(tier, 0) + [{"kind": "chunks", "sched": [6, 2]}, {"kind": "chunks", "sched": [5, 3, 1]}]
     cmds, exps = [], []
     k = 0
     sentinel = [2, 4, 6]
@@ -127,7 +128,10 @@ def random_skips(rng, n_events, rep):
             v = pyavro.random_value(rng, nodes, 1, depth=4, size=rng.choice([1, 2, 4]))
             b = pyavro.encode(nodes, 1, v, rng)
             path = rng.choice(paths_of(nodes, 1, v, 3))
-            rd = rng.choice([{"kind": "slice"}, {"kind": "chunks", "sched": [1]}, {"kind": "chunks", "sched": [rng.randrange(1, 9)]}])
+            rd = rng.choice([{"kind": "slice"}, {"kind": "chunks", "sched": [1]}, {"kind": "chunks", "sched": [rng.randrange(1, 9)]},
+                             # refills of decreasing / varying size (a skip that spans several refills must count each one for what it is)
+                             {"kind": "chunks", "sched": sorted((rng.randrange(1, 12) for _ in range(rng.randrange(2, 5))), reverse=True)},
+                             {"kind": "chunks", "sched": [rng.randrange(1, 12) for _ in range(rng.randrange(2, 6))]}])
             cmds.append({"op": "de", "id": len(cmds), "schema": {"nodes": nodes}, "bytes": b + [7, 7], "reader": rd, "ignore": [path],
                          "limits": {"depth": 64, "max_seq": 100000}})
             sis.append(si + 1)
